@@ -22,6 +22,7 @@ import (
 
 	"github.com/gotid/god/api/httpx"
 	"github.com/gotid/god/api/router"
+	"github.com/gotid/god/internal/verifc04"
 	"github.com/gotid/god/internal/verifdrv"
 	"github.com/gotid/god/lib/codec"
 	"github.com/gotid/god/lib/logx"
@@ -111,6 +112,15 @@ func TestVerifDriverC04(t *testing.T) {
 		if kerr != nil {
 			return map[string]any{"error": "keygen: " + kerr.Error()}
 		}
+		var kind struct {
+			Kind string `json:"kind"`
+		}
+		if err := json.Unmarshal(raw, &kind); err != nil {
+			return map[string]any{"error": err.Error()}
+		}
+		if kind.Kind == "ejwt" {
+			return verifC04EngineJwt(raw)
+		}
 		var c verifC04Case
 		if err := json.Unmarshal(raw, &c); err != nil {
 			return map[string]any{"error": err.Error()}
@@ -194,4 +204,101 @@ func TestVerifDriverC04(t *testing.T) {
 		}
 		return map[string]any{"rows": rows}
 	})
+}
+
+// ---------------------------------------------------------------- JWT routes through the engine
+
+type verifC04JwtGroup struct {
+	Opt    string `json:"opt"` // none | jwt | transition
+	Secret string `json:"secret"`
+	Prev   string `json:"prev"`
+}
+
+type verifC04JwtReq struct {
+	Group  int    `json:"group"`
+	Tok    int    `json:"tok"` // index into tokens, -1 = no Authorization header
+	Scheme string `json:"scheme"`
+}
+
+type verifC04JwtCase struct {
+	Groups  []verifC04JwtGroup   `json:"groups"`
+	Secrets []string             `json:"secrets"` // universe tabulated by the oracle
+	Tokens  []verifc04.TokenSpec `json:"tokens"`
+	Reqs    []verifC04JwtReq     `json:"reqs"`
+}
+
+// verifC04EngineJwt builds the chains the way applications do: route options WithJwt /
+// WithJwtTransition applied to featuredRoutes, engine.addRoutes, bindRoutes on a fresh router.
+func verifC04EngineJwt(raw json.RawMessage) any {
+	var c verifC04JwtCase
+	if err := json.Unmarshal(raw, &c); err != nil {
+		return map[string]any{"error": err.Error()}
+	}
+	wall := time.Now()
+	texts := make([]string, len(c.Tokens))
+	for i, ts := range c.Tokens {
+		texts[i] = verifc04.Mint(ts, wall)
+	}
+	ng, rt := newEngine(Config{Timeout: 60000, MaxBytes: 1 << 20}), router.NewRouter()
+	ranGroup := -1
+	confPanic := make([]bool, len(c.Groups))
+	for gi, g := range c.Groups {
+		gi := gi
+		path := "/jwt" + strconv.Itoa(gi) + "/res"
+		fr := featuredRoutes{routes: []Route{{Method: http.MethodGet, Path: path, Handler: func(w http.ResponseWriter, r *http.Request) {
+			ranGroup = gi
+			w.WriteHeader(http.StatusOK)
+		}}}}
+		g := g
+		confPanic[gi], _ = verifdrv.Catch(func() {
+			switch g.Opt {
+			case "jwt":
+				WithJwt(g.Secret)(&fr)
+			case "transition":
+				WithJwtTransition(g.Secret, g.Prev)(&fr)
+			}
+		})
+		if !confPanic[gi] {
+			ng.addRoutes(fr)
+		}
+	}
+	if err := ng.bindRoutes(rt); err != nil {
+		return map[string]any{"error": "bindRoutes: " + err.Error()}
+	}
+	type row struct {
+		Header int  `json:"header"`
+		Status int  `json:"status"`
+		Ran    bool `json:"ran"`
+	}
+	headers := []string{}
+	hidx := map[string]int{}
+	rows := []row{}
+	for _, rq := range c.Reqs {
+		h := ""
+		if rq.Tok >= 0 {
+			h = rq.Scheme + texts[rq.Tok]
+		}
+		if _, ok := hidx[h]; !ok {
+			hidx[h] = len(headers)
+			headers = append(headers, h)
+		}
+		req := httptest.NewRequest(http.MethodGet, "http://localhost/jwt"+strconv.Itoa(rq.Group)+"/res", nil)
+		if h != "" {
+			req.Header.Set("Authorization", h)
+		}
+		ranGroup = -1
+		rec := httptest.NewRecorder()
+		rt.ServeHTTP(rec, req)
+		rows = append(rows, row{Header: hidx[h], Status: rec.Code, Ran: ranGroup == rq.Group})
+	}
+	oracle := make([]map[string]verifc04.Verdict, len(headers))
+	for i, h := range headers {
+		oracle[i] = map[string]verifc04.Verdict{}
+		for _, s := range c.Secrets {
+			v := verifc04.Oracle(h, s)
+			v.Claims = nil
+			oracle[i][s] = v
+		}
+	}
+	return map[string]any{"rows": rows, "oracle": oracle, "confpanic": confPanic}
 }
